@@ -5,8 +5,12 @@ ROOT = os.path.dirname(os.path.dirname(os.path.abspath(__file__)))
 REPO = os.environ.get("VERIF_REPO", "/repo")
 BUILD = os.path.join(ROOT, ".build")
 COQ = os.path.join(ROOT, "coq")
-OUT = os.path.join(ROOT, "out")
-CARGO_TARGET = os.path.join(BUILD, "cargo")
+# VERIF_TAG: run against a scratch copy of the repository (VERIF_REPO) without touching the
+# real build caches, evidence or replay directories (used for seeded-change experiments only)
+TAG = os.environ.get("VERIF_TAG", "")
+OUT = os.path.join(ROOT, "out", TAG) if TAG else os.path.join(ROOT, "out")
+CARGO_TARGET = os.path.join(BUILD, "cargo_" + TAG) if TAG else os.path.join(BUILD, "cargo")
+EVIDENCE_DIR = os.path.join(OUT, "evidence") if TAG else os.path.join(ROOT, "evidence")
 NCPU = os.cpu_count() or 4
 
 ENV = dict(os.environ, CARGO_NET_OFFLINE="true", CARGO_TARGET_DIR=CARGO_TARGET)
@@ -94,7 +98,7 @@ def coqc_file(path, timeout=600):
 
 
 def replay_dir(prop):
-    d = os.path.join(COQ, "Replay", prop)
+    d = os.path.join(COQ, "Replay", (TAG + "_" if TAG else "") + prop)
     os.makedirs(d, exist_ok=True)
     return d
 
@@ -136,8 +140,30 @@ def check_theorems(prop, theorems):
 
 # ----------------------------------------------------------------- Rust / OCaml
 
-def cargo_build(profile="debug", hooks=True, bins=None, timeout=1800):
+def harness_dir():
+    """the harness crate; for a scratch repository a copy whose path dependency points there"""
     hdir = os.path.join(ROOT, "harness")
+    if not TAG:
+        return hdir
+    alt = os.path.join(BUILD, "harness_" + TAG)
+    os.makedirs(alt, exist_ok=True)
+    for root, dirs, files in os.walk(hdir):
+        rel = os.path.relpath(root, hdir)
+        os.makedirs(os.path.join(alt, rel), exist_ok=True)
+        for f in files:
+            src, dst = os.path.join(root, f), os.path.join(alt, rel, f)
+            data = open(src, "rb").read()
+            if f == "Cargo.toml":
+                data = data.replace(b'path = "/repo"', ('path = "%s"' % REPO).encode())
+            if f == "config.toml":
+                data = data.replace(b"/verif/.build/cargo", CARGO_TARGET.encode())
+            if not os.path.exists(dst) or open(dst, "rb").read() != data:
+                open(dst, "wb").write(data)
+    return alt
+
+
+def cargo_build(profile="debug", hooks=True, bins=None, timeout=1800):
+    hdir = harness_dir()
     # keep the lock file and toolchain in step with the repository
     for f in ("Cargo.lock", "rust-toolchain"):
         src, dst = os.path.join(REPO, f), os.path.join(hdir, f)
@@ -448,8 +474,8 @@ class Result:
             "wall_s": round(time.time() - self.t0, 2),
             "violations": reported + (len(self.tie_breaks) if reported == 0 else 0),
         }
-        os.makedirs(os.path.join(ROOT, "evidence"), exist_ok=True)
-        with open(os.path.join(ROOT, "evidence", f"{self.prop}.json"), "w") as f:
+        os.makedirs(EVIDENCE_DIR, exist_ok=True)
+        with open(os.path.join(EVIDENCE_DIR, f"{self.prop}.json"), "w") as f:
             json.dump(ev, f, indent=1)
         return code
 
